@@ -247,6 +247,10 @@ def check(repo: Repo, run: Run) -> None:
         nfn += 1
         ws = writes_to_arguments(fn)
         short = q.split(".")[-1]
+        unsure = [w for w in ws if w[2].startswith("?")]
+        ws = [w for w in ws if not w[2].startswith("?")]
+        for r, node, what in unsure[:1]:
+            run.inconclusive("C18.B6", f"{short}|writes {r}", f"{what[1:]}, but `{r}` is also bound to a fresh object in this function")
         if ws:
             for r, node, what in ws[:3]:
                 run.ob("C18.B6", f"{short}|writes {r}", False,
